@@ -121,7 +121,9 @@ structure State where
   now : Nat
   nextMid : Nat
   tokenCtr : Nat
-  draws : List Nat                       -- pending results of `random.uniform`
+  drawFn : Nat → Nat                     -- the results of `random.uniform`, in call order
+  drawIdx : Nat                          -- how many have been consumed
+  issued : Nat                           -- ghost: number of tokens handed out so far
   recent : List Recent
   exchanges : List Exchange
   backlogs : List (Remote × List Queued)
@@ -131,8 +133,6 @@ structure State where
   nextSrv : Nat
   shutMsg : Bool                         -- `_active_exchanges is None`
   shutTok : Bool                         -- `outgoing_requests is None`
-  starved : Bool                         -- ran out of draws (the run is outside the model)
-deriving Repr
 
 inductive ErrKind
   | messageError | conRetransmitsExceeded | networkError | libraryShutdown | conToMulticast
@@ -163,10 +163,10 @@ structure TEv where
   ev : Ev
 deriving DecidableEq, Repr
 
-def init (cfg : Cfg) (mid token : Nat) (draws : List Nat) : State :=
-  { cfg, now := 0, nextMid := mid, tokenCtr := token, draws,
+def init (cfg : Cfg) (mid token : Nat) (drawFn : Nat → Nat) : State :=
+  { cfg, now := 0, nextMid := mid, tokenCtr := token, drawFn, drawIdx := 0, issued := 0,
     recent := [], exchanges := [], backlogs := [], piggy := [], outgoing := [], incoming := [],
-    nextSrv := 0, shutMsg := false, shutTok := false, starved := false }
+    nextSrv := 0, shutMsg := false, shutTok := false }
 
 /-- `next_token`: `(n+1) % 2**64` big-endian without leading zeros -/
 def tokenOf (n : Nat) : Token := natToMinBE n
@@ -188,14 +188,12 @@ def storeReply (s : State) (remote : Remote) (w : Wire) : State :=
 
 /-- `_add_exchange` -/
 def addExchange (s : State) (remote : Remote) (w : Wire) (mon : Monitor) (maxRetr : Nat) : State :=
-  let s1 := if hasBacklog s remote then s else { s with backlogs := s.backlogs ++ [(remote, [])] }
-  match s1.draws with
-  | [] => { s1 with starved := true }
-  | T :: rest =>
-    { s1 with draws := rest,
-              exchanges := s1.exchanges ++ [{ remote, msg := w, timeout := T, counter := 0, maxRetr,
-                                              fireAt := s1.now + T, monitor := mon,
-                                              t0 := s1.now, T0 := T }] }
+  let bl := if hasBacklog s remote then s.backlogs else s.backlogs ++ [(remote, [])]
+  let T := s.drawFn s.drawIdx
+  { s with backlogs := bl, drawIdx := s.drawIdx + 1,
+           exchanges := s.exchanges ++ [{ remote, msg := w, timeout := T, counter := 0, maxRetr,
+                                          fireAt := s.now + T, monitor := mon,
+                                          t0 := s.now, T0 := T }] }
 
 /-- `_send_initially` -/
 def sendInitially (s : State) (remote : Remote) (w : Wire) (mon : Monitor) (maxRetr : Nat) :
@@ -211,46 +209,62 @@ def appendBacklog (bl : List (Remote × List Queued)) (remote : Remote) (qd : Qu
 inductive SendRes | sent | suppressed | conToMulticast
 deriving DecidableEq, Repr
 
+/-- does the No-Response option of response `m` suppress it?
+`(no_response or 0) & (1 << class - 1) != 0` -/
+def suppressed (m : OutMsg) : Bool :=
+  isResponse m.code && (m.noResponse / 2 ^ (codeClass m.code - 1)) % 2 == 1
+
+/-- the pending piggy-back opportunity a response can use -/
+def findPiggy (s : State) (remote : Remote) (token : Token) (m : OutMsg) : Option Piggy :=
+  if isResponse m.code then s.piggy.find? (fun p => p.remote == remote && p.token == token) else none
+
+def dropPiggy (s : State) (remote : Remote) (token : Token) : State :=
+  { s with piggy := s.piggy.filter (fun p => !(p.remote == remote && p.token == token)) }
+
+/-- the message type `send_message` settles on when no ACK is being piggy-backed -/
+def chooseType (s : State) (mc wasNon : Bool) (m : OutMsg) : MType :=
+  match m.mtype with
+  | none =>
+    if s.shutMsg then .non
+    else if mc then .non
+    else match m.reliability with
+      | some true => .con
+      | some false => .non
+      | none => if wasNon then .non else .con
+  | some t => if s.shutMsg then .non else t
+
+/-- last stage of `send_message`: the message has its type and id; CONs to a busy remote wait -/
+def dispatchOut (s : State) (remote : Remote) (w : Wire) (mon : Monitor) (maxRetr : Nat) :
+    State × List Out :=
+  if w.mtype == .con && hasBacklog s remote then
+    ({ s with backlogs := appendBacklog s.backlogs remote ⟨w, mon, maxRetr⟩ }, [])
+  else sendInitially s remote w mon maxRetr
+
+def takeMid (s : State) : Nat × State := (s.nextMid, { s with nextMid := (s.nextMid + 1) % 65536 })
+
 /-- `send_message`; `wasNon` is `message.request.mtype is NON` (false when there is no request) -/
 def sendMessage (s : State) (remote : Remote) (mc : Bool) (token : Token) (m : OutMsg)
     (wasNon : Bool) (mon : Monitor) : State × List Out × SendRes :=
-  -- responses: No-Response handling and piggybacking
-  let isResp := isResponse m.code
-  let noResp : Bool := isResp && (m.noResponse / 2 ^ (codeClass m.code - 1)) % 2 == 1
-  let pig := if isResp then s.piggy.find? (fun p => p.remote == remote && p.token == token) else none
-  let s1 : State := match pig with
-    | some _ => { s with piggy := s.piggy.filter (fun p => !(p.remote == remote && p.token == token)) }
-    | none => s
-  match pig, noResp with
-  | some p, true =>
-    -- turned into an empty ACK
-    let w : Wire := { mtype := .ack, code := 0, mid := p.mid, token := [], obs := none, body := 0 }
-    let (s2, o) := sendInitially s1 remote w mon m.maxRetr
-    (s2, o, .sent)
-  | none, true => (s1, [], .suppressed)
-  | _, false =>
-    let (mtype0, mid0) : Option MType × Option Nat := match pig with
-      | some p => (some .ack, some p.mid)
-      | none => (m.mtype, none)
-    let mtype : MType := match mtype0 with
-      | none =>
-        if s1.shutMsg then .non
-        else if mc then .non
-        else match m.reliability with
-          | some true => .con
-          | some false => .non
-          | none => if wasNon then .non else .con
-      | some t => if s1.shutMsg then .non else t
-    if mtype == .con && mc then (s1, [], .conToMulticast) else
-    let (mid, s2) : Nat × State := match mid0 with
-      | some x => (x, s1)
-      | none => (s1.nextMid, { s1 with nextMid := (s1.nextMid + 1) % 65536 })
-    let w : Wire := { mtype, code := m.code, mid, token, obs := m.obs, body := m.body }
-    if mtype == .con && hasBacklog s2 remote then
-      ({ s2 with backlogs := appendBacklog s2.backlogs remote ⟨w, mon, m.maxRetr⟩ }, [], .sent)
+  match findPiggy s remote token m with
+  | some p =>
+    let s1 := dropPiggy s remote token
+    if suppressed m then
+      -- turned into an empty ACK
+      let (s2, o) := sendInitially s1 remote
+        { mtype := .ack, code := 0, mid := p.mid, token := [], obs := none, body := 0 } mon m.maxRetr
+      (s2, o, .sent)
     else
-      let (s3, o) := sendInitially s2 remote w mon m.maxRetr
-      (s3, o, .sent)
+      let (s2, o) := dispatchOut s1 remote
+        { mtype := .ack, code := m.code, mid := p.mid, token, obs := m.obs, body := m.body } mon m.maxRetr
+      (s2, o, .sent)
+  | none =>
+    if suppressed m then (s, [], .suppressed) else
+    let mtype := chooseType s mc wasNon m
+    if mtype == .con && mc then (s, [], .conToMulticast) else
+    let (mid, s1) := takeMid s
+    let (s2, o) := dispatchOut s1 remote
+      { mtype, code := m.code, mid, token, obs := m.obs, body := m.body } mon m.maxRetr
+    (s2, o, .sent)
 
 /-- `_send_empty_ack` / the RSTs of `_process_ping` and unknown responses -/
 def sendBare (s : State) (remote : Remote) (t : MType) (mid : Nat) : State × List Out :=
@@ -258,17 +272,23 @@ def sendBare (s : State) (remote : Remote) (t : MType) (mid : Nat) : State × Li
 
 -- token manager ---------------------------------------------------------------------------
 
+def dropOutgoing (s : State) (r : Nat) : State :=
+  { s with outgoing := s.outgoing.filter (fun x => x.req != r) }
+
+def dropIncoming (s : State) (sv : Nat) : State :=
+  { s with incoming := s.incoming.filter (fun x => x.srv != sv) }
+
 /-- calling a monitor / stopper -/
 def runMonitor (s : State) (mon : Monitor) : State × List Out :=
   match mon with
   | .req r =>
     -- `request.add_exception(MessageError)`: the pipe ends, its interest-end hook pops the entry
     if s.outgoing.any (fun o => o.req == r) then
-      ({ s with outgoing := s.outgoing.filter (fun o => o.req != r) }, [.fail r .messageError])
+      (dropOutgoing s r, [.fail r .messageError])
     else (s, [])
   | .srv sv =>
     if s.incoming.any (fun i => i.srv == sv) then
-      ({ s with incoming := s.incoming.filter (fun i => i.srv != sv) }, [.stop sv])
+      (dropIncoming s sv, [.stop sv])
     else (s, [])
   | .none => (s, [])
 
@@ -290,14 +310,14 @@ def processResponse (s : State) (remote : Remote) (w : Wire) : State × List Out
   | none => (s, [], false)
   | some o =>
     let final := !(o.observing && w.obs.isSome)
-    let s1 := if final then { s with outgoing := s.outgoing.filter (fun x => x.req != o.req) } else s
+    let s1 := if final then dropOutgoing s o.req else s
     (s1, [.response o.req w final], true)
 
 /-- `process_request` -/
 def tokenProcessRequest (s : State) (remote : Remote) (w : Wire) : State × List Out :=
   let old := s.incoming.find? (fun i => i.token == w.token && i.remote == remote)
   let (s1, o1) : State × List Out := match old with
-    | some i => ({ s with incoming := s.incoming.filter (fun x => x.srv != i.srv) }, [.stop i.srv])
+    | some i => (dropIncoming s i.srv, [.stop i.srv])
     | none => (s, [])
   let sv := s1.nextSrv
   ({ s1 with nextSrv := sv + 1,
@@ -307,34 +327,47 @@ def tokenProcessRequest (s : State) (remote : Remote) (w : Wire) : State × List
 
 -- message manager, incoming ---------------------------------------------------------------
 
-/-- `_continue_backlog` (fuel: the number of queued messages bounds the loop) -/
-def continueBacklog (fuel : Nat) (s : State) (remote : Remote) : State × List Out :=
-  match fuel with
-  | 0 => (s, [])
-  | fuel + 1 =>
-    if hasExchange s remote then (s, []) else
-    match s.backlogs.find? (fun b => b.1 == remote) with
-    | none => (s, [])
-    | some (_, []) => ({ s with backlogs := s.backlogs.filter (fun b => !(b.1 == remote)) }, [])
-    | some (_, qd :: rest) =>
-      let s1 := { s with backlogs := s.backlogs.map fun b => if b.1 == remote then (b.1, rest) else b }
-      let (s2, o) := sendInitially s1 remote qd.msg qd.monitor qd.maxRetr
-      let (s3, o') := continueBacklog fuel s2 remote
+def setBacklog (bl : List (Remote × List Queued)) (remote : Remote) (l : List Queued) :
+    List (Remote × List Queued) :=
+  bl.map fun b => if b.1 == remote then (b.1, l) else b
+
+/-- the loop of `_continue_backlog` over the queue `l` of `remote` (no exchange with `remote` is
+active): send the head; stop as soon as that opened an exchange (always, for a CON); when the
+queue runs empty, drop the backlog key. -/
+def drainBacklog (s : State) (remote : Remote) : List Queued → State × List Out
+  | [] => ({ s with backlogs := s.backlogs.filter (fun b => !(b.1 == remote)) }, [])
+  | qd :: rest =>
+    let s1 := { s with backlogs := setBacklog s.backlogs remote rest }
+    let (s2, o) := sendInitially s1 remote qd.msg qd.monitor qd.maxRetr
+    if qd.msg.mtype == .con then (s2, o)
+    else
+      let (s3, o') := drainBacklog s2 remote rest
       (s3, o ++ o')
 
-def backlogLen (s : State) (remote : Remote) : Nat :=
+/-- `_continue_backlog` -/
+def continueBacklog (s : State) (remote : Remote) : State × List Out :=
+  if hasExchange s remote then (s, []) else
   match s.backlogs.find? (fun b => b.1 == remote) with
-  | some (_, l) => l.length
-  | none => 0
+  | none => (s, [])
+  | some (_, l) => drainBacklog s remote l
+
+def findExchange (s : State) (remote : Remote) (mid : Nat) : Option Exchange :=
+  s.exchanges.find? (fun e => e.remote == remote && e.msg.mid == mid)
+
+def dropExchange (s : State) (remote : Remote) (mid : Nat) : State :=
+  { s with exchanges := s.exchanges.filter (fun x => !(x.remote == remote && x.msg.mid == mid)) }
+
+def dropBacklog (s : State) (remote : Remote) : State :=
+  { s with backlogs := s.backlogs.filter (fun b => !(b.1 == remote)) }
 
 /-- `_remove_exchange` -/
 def removeExchange (s : State) (remote : Remote) (w : Wire) : State × List Out :=
-  match s.exchanges.find? (fun e => e.remote == remote && e.msg.mid == w.mid) with
+  match findExchange s remote w.mid with
   | none => (s, [])
   | some e =>
-    let s1 := { s with exchanges := s.exchanges.filter (fun x => !(x.remote == remote && x.msg.mid == w.mid)) }
+    let s1 := dropExchange s remote w.mid
     let (s2, o) := if w.mtype == .rst then runMonitor s1 e.monitor else (s1, [])
-    let (s3, o') := continueBacklog (backlogLen s2 remote + 1) s2 remote
+    let (s3, o') := continueBacklog s2 remote
     (s3, o ++ o')
 
 /-- `_process_request` -/
@@ -346,88 +379,100 @@ def processRequest (s : State) (remote : Remote) (w : Wire) : State × List Out 
     else s
   tokenProcessRequest s1 remote w
 
+/-- is this request a duplicate (`_deduplicate_message` finds its key)? -/
+def isDup (s : State) (remote : Remote) (w : Wire) : Bool :=
+  isRequest w.code && s.recent.any (fun r => r.remote == remote && r.mid == w.mid)
+
+/-- the stored reply for `(remote, mid)`, if any -/
+def storedReply (s : State) (remote : Remote) (mid : Nat) : Option Wire :=
+  (s.recent.find? (fun r => r.remote == remote && r.mid == mid)).bind (·.reply)
+
+/-- `_deduplicate_message` on a duplicate: repeat the stored reply to a CON, else nothing -/
+def recvDup (s : State) (remote : Remote) (w : Wire) : State × List Out :=
+  if w.mtype == .con then
+    match storedReply s remote w.mid with
+    | some reply => sendInitially s remote reply .none 0
+    | none => (s, [])
+  else (s, [])
+
+/-- the code/type table of `dispatch_message` (after deduplication and exchange removal) -/
+def recvCode (s : State) (remote : Remote) (mcLocal : Bool) (w : Wire) : State × List Out :=
+  if w.code == 0 && w.mtype == .con then sendBare s remote .rst w.mid
+  else if w.code == 0 && (w.mtype == .ack || w.mtype == .rst) then (s, [])
+  else if isRequest w.code && (w.mtype == .con || w.mtype == .non) then processRequest s remote w
+  else if isResponse w.code && (w.mtype == .con || w.mtype == .non || w.mtype == .ack) then
+    let (s2, o, ok) := processResponse s remote w
+    if ok then
+      if w.mtype == .con then
+        let (s3, o') := sendBare s2 remote .ack w.mid
+        (s3, o ++ o')
+      else (s2, o)
+    else if w.mtype == .con && !mcLocal then sendBare s2 remote .rst w.mid
+    else (s2, o)
+  else (s, [])
+
 /-- `dispatch_message` -/
 def recv (s : State) (remote : Remote) (mcLocal : Bool) (w : Wire) : State × List Out :=
-  -- deduplication of requests
-  let dup := isRequest w.code && s.recent.any (fun r => r.remote == remote && r.mid == w.mid)
-  if dup then
-    if w.mtype == .con then
-      match (s.recent.find? (fun r => r.remote == remote && r.mid == w.mid)).bind (·.reply) with
-      | some reply => sendInitially s remote reply .none 0
-      | none => (s, [])
-    else (s, [])
-  else
+  if isDup s remote w then recvDup s remote w else
   let s0 := if isRequest w.code then
       { s with recent := s.recent ++ [{ remote, mid := w.mid, reply := none,
                                         expiry := s.now + s.cfg.exchangeLifetime }] }
     else s
   let (s1, o1) := if w.mtype == .ack || w.mtype == .rst then removeExchange s0 remote w else (s0, [])
-  let (s2, o2) : State × List Out :=
-    if w.code == 0 && w.mtype == .con then sendBare s1 remote .rst w.mid
-    else if w.code == 0 && (w.mtype == .ack || w.mtype == .rst) then (s1, [])
-    else if isRequest w.code && (w.mtype == .con || w.mtype == .non) then processRequest s1 remote w
-    else if isResponse w.code && (w.mtype == .con || w.mtype == .non || w.mtype == .ack) then
-      let (s2, o, ok) := processResponse s1 remote w
-      if ok then
-        if w.mtype == .con then
-          let (s3, o') := sendBare s2 remote .ack w.mid
-          (s3, o ++ o')
-        else (s2, o)
-      else if w.mtype == .con && !mcLocal then sendBare s2 remote .rst w.mid
-      else (s2, o)
-    else (s1, [])
+  let (s2, o2) := recvCode s1 remote mcLocal w
   (s2, o1 ++ o2)
 
 /-- `MessageManager.dispatch_error` -/
 def dispatchError (s : State) (remote : Remote) : State × List Out :=
   if s.shutMsg then (s, []) else
   let (s1, o) := tokenDispatchError s remote .networkError
-  ({ s1 with exchanges := s1.exchanges.filter (fun e => !(e.remote == remote)),
-             backlogs := s1.backlogs.filter (fun b => !(b.1 == remote)) }, o)
+  (dropBacklog { s1 with exchanges := s1.exchanges.filter (fun e => !(e.remote == remote)) } remote, o)
 
 -- timers ----------------------------------------------------------------------------------
 
+/-- the exchange after one more retransmission at `now` -/
+def Exchange.next (e : Exchange) (now : Nat) : Exchange :=
+  { e with counter := e.counter + 1, timeout := e.timeout * 2, fireAt := now + e.timeout * 2 }
+
 /-- `_retransmit` -/
 def fireRetransmit (s : State) (remote : Remote) (mid : Nat) : State × List Out :=
-  match s.exchanges.find? (fun e => e.remote == remote && e.msg.mid == mid) with
+  match findExchange s remote mid with
   | none => (s, [])
   | some e =>
-    let others := s.exchanges.filter (fun x => !(x.remote == remote && x.msg.mid == mid))
+    let s1 := dropExchange s remote mid
     if e.counter < e.maxRetr then
-      ({ s with exchanges := others ++ [{ e with counter := e.counter + 1, timeout := e.timeout * 2,
-                                                 fireAt := s.now + e.timeout * 2 }] },
-       [.send s.now remote e.msg])
+      ({ s1 with exchanges := s1.exchanges ++ [e.next s.now] }, [.send s.now remote e.msg])
     else
-      let s1 := { s with exchanges := others,
-                         backlogs := s.backlogs.filter (fun b => !(b.1 == remote)) }
-      tokenDispatchError s1 remote .conRetransmitsExceeded
+      tokenDispatchError (dropBacklog s1 remote) remote .conRetransmitsExceeded
 
 /-- the `on_timeout` of `_process_request` -/
 def fireEmptyAck (s : State) (remote : Remote) (token : Token) : State × List Out :=
   match s.piggy.find? (fun p => p.remote == remote && p.token == token) with
   | none => (s, [])
-  | some p =>
-    let s1 := { s with piggy := s.piggy.filter (fun q => !(q.remote == remote && q.token == token)) }
-    sendBare s1 remote .ack p.mid
+  | some p => sendBare (dropPiggy s remote token) remote .ack p.mid
 
 def fireExpire (s : State) (remote : Remote) (mid : Nat) : State × List Out :=
   ({ s with recent := s.recent.filter (fun r => !(r.remote == remote && r.mid == mid)) }, [])
 
 -- application side ------------------------------------------------------------------------
 
+/-- the token `next_token` hands out in state `s` -/
+def nextToken (s : State) : Token := tokenOf ((s.tokenCtr + 1) % 2 ^ 64)
+
+/-- `next_token` + registration in `outgoing_requests` -/
+def registerOutgoing (s : State) (r : Nat) (remote : Remote) (mc observing : Bool) : State :=
+  { s with tokenCtr := (s.tokenCtr + 1) % 2 ^ 64, issued := s.issued + 1,
+           outgoing := s.outgoing ++ [{ token := nextToken s, remote := if mc then none else some remote,
+                                        req := r, observing }] }
+
 /-- `TokenManager.request` -/
 def submit (s : State) (r : Nat) (remote : Remote) (mc : Bool) (observing : Bool) (m : OutMsg) :
     State × List Out :=
   if s.shutTok then (s, [.fail r .libraryShutdown]) else
-  let ctr := (s.tokenCtr + 1) % 2 ^ 64
-  let token := tokenOf ctr
-  let s1 := { s with tokenCtr := ctr,
-                     outgoing := s.outgoing ++ [{ token, remote := if mc then none else some remote,
-                                                  req := r, observing }] }
-  let (s2, o, res) := sendMessage s1 remote mc token m false (.req r)
+  let s1 := registerOutgoing s r remote mc observing
+  let (s2, o, res) := sendMessage s1 remote mc (nextToken s) m false (.req r)
   match res with
-  | .conToMulticast =>
-    ({ s2 with outgoing := s2.outgoing.filter (fun x => x.req != r) }, o ++ [.fail r .conToMulticast])
+  | .conToMulticast => (dropOutgoing s2 r, o ++ [.fail r .conToMulticast])
   | _ => (s2, o)
 
 /-- a response event on the pipe of incoming request `srv` -/
@@ -436,11 +481,10 @@ def respond (s : State) (sv : Nat) (m : OutMsg) (isLast : Bool) : State × List 
   | none => (s, [])        -- the pipe has ended; the event is discarded
   | some i =>
     let (s1, o, _) := sendMessage s i.remote false i.token m i.wasNon (.srv sv)
-    if isLast then ({ s1 with incoming := s1.incoming.filter (fun x => x.srv != sv) }, o)
+    if isLast then (dropIncoming s1 sv, o)
     else (s1, o)
 
-def appCancel (s : State) (r : Nat) : State × List Out :=
-  ({ s with outgoing := s.outgoing.filter (fun o => o.req != r) }, [])
+def appCancel (s : State) (r : Nat) : State × List Out := (dropOutgoing s r, [])
 
 /-- `Context.shutdown`: token manager first, then message manager -/
 def shutdown (s : State) : State × List Out :=
@@ -448,7 +492,7 @@ def shutdown (s : State) : State × List Out :=
   let o := s.incoming.map (fun i => Out.stop i.srv) ++
            s.outgoing.map (fun x => Out.fail x.req .libraryShutdown)
   ({ s with incoming := [], outgoing := [], shutTok := true, shutMsg := true,
-            exchanges := [], piggy := [] }, o)
+            exchanges := [], backlogs := [], piggy := [] }, o)
 
 def handle (s : State) : Ev → State × List Out
   | .submit r remote mc observing m => submit s r remote mc observing m
@@ -461,8 +505,10 @@ def handle (s : State) : Ev → State × List Out
   | .fireExpire remote mid => fireExpire s remote mid
   | .shutdown => shutdown s
 
+def setNow (s : State) (t : Nat) : State := { s with now := t }
+
 def step (s : State) (e : TEv) : State × List Out :=
-  handle { s with now := e.time } e.ev
+  handle (setNow s e.time) e.ev
 
 def run (s : State) : List TEv → State × List Out
   | [] => (s, [])
